@@ -26,7 +26,7 @@ MANIFEST = dict(
     design_ref="5/C02",
 )
 
-VALUES = ["V", 5, None, {"z": 1}, [1, 2], "", True, {"n": {"m": []}}, 0.5]
+VALUES = ["V", 5, None, {"z": 1}, [1, 2], "", True, {"n": {"m": []}}, 0.5, {}, []]
 
 
 def gen_history(rng, tree, nops):
